@@ -33,7 +33,7 @@ theorem C17.gen_end_of_line {P T V A L H : Type} (en : Env P T V A H) (g : Parse
     (ParseTreeProcessor.visit_end_of_line en).run g =
       (.ok (), { g with current_line_number := g.current_line_number + (1 + g.line_breaks_inside_literals),
                         line_breaks_inside_literals := 0 }) := by
-  simp [ParseTreeProcessor.visit_end_of_line]
+  simp [ParseTreeProcessor.visit_end_of_line, py_helper]
   all_goals omega
 
 /-- … and a string literal adds the number of its raw line breaks (the statement keeps the number of its first line). -/
@@ -41,7 +41,7 @@ theorem C17.gen_literal_line_breaks {P T V A L H : Type} (en : Env P T V A H) (g
     (h : en.parse_string_literal t = .ok v) :
     (ParseTreeProcessor.visit_literal_string en t).run g =
       (.ok v, { g with line_breaks_inside_literals := g.line_breaks_inside_literals + t.count '\n' }) := by
-  simp [ParseTreeProcessor.visit_literal_string, h, strCountChar]
+  simp [ParseTreeProcessor.visit_literal_string, h, strCountChar, py_helper]
 
 /-- `_flush_comment` never moves the line counter, the recorded attribute line or the literal line-break count -/
 theorem C17.gen_flush_keeps_lines {P T V A L H : Type} (en : Env P T V A H) (g : ParserS P T V A L H) :
@@ -56,10 +56,10 @@ theorem C17.gen_field_records_own_line {P T V A L H : Type} (en : Env P T V A H)
     g'.last_attribute_line_number = g.current_line_number ∧ g'.current_line_number = g.current_line_number ∧
       g'.statement_stream_processor.element_callback = some (.on_field t name) := by
   cases hn : name.isEmpty with
-  | true => simp [ParseTreeProcessor.visit_statement_field, hn] at h
+  | true => simp [ParseTreeProcessor.visit_statement_field, hn, py_helper] at h
   | false =>
     refine attr_statement_line en g g' (DataTypeBuilder.on_field en t name) _ rfl ?_
-    simpa [ParseTreeProcessor.visit_statement_field, hn] using h
+    simpa [ParseTreeProcessor.visit_statement_field, hn, py_helper] using h
 
 /-- … a constant statement too … -/
 theorem C17.gen_constant_records_own_line {P T V A L H : Type} (en : Env P T V A H) (g g' : ParserS P T V A L H) (t : T) (name : Str) (v : V)
@@ -67,10 +67,10 @@ theorem C17.gen_constant_records_own_line {P T V A L H : Type} (en : Env P T V A
     g'.last_attribute_line_number = g.current_line_number ∧ g'.current_line_number = g.current_line_number ∧
       g'.statement_stream_processor.element_callback = some (.on_constant t name v) := by
   cases hn : name.isEmpty with
-  | true => simp [ParseTreeProcessor.visit_statement_constant, hn] at h
+  | true => simp [ParseTreeProcessor.visit_statement_constant, hn, py_helper] at h
   | false =>
     refine attr_statement_line en g g' (DataTypeBuilder.on_constant en t name v) _ rfl ?_
-    simpa [ParseTreeProcessor.visit_statement_constant, hn] using h
+    simpa [ParseTreeProcessor.visit_statement_constant, hn, py_helper] using h
 
 /-- … and a padding statement. -/
 theorem C17.gen_padding_records_own_line {P T V A L H : Type} (en : Env P T V A H) (g g' : ParserS P T V A L H) (t : T)
@@ -78,7 +78,7 @@ theorem C17.gen_padding_records_own_line {P T V A L H : Type} (en : Env P T V A 
     g'.last_attribute_line_number = g.current_line_number ∧ g'.current_line_number = g.current_line_number ∧
       g'.statement_stream_processor.element_callback = some (.on_padding_field t) := by
   refine attr_statement_line en g g' (DataTypeBuilder.on_padding_field en t) _ rfl ?_
-  simpa [ParseTreeProcessor.visit_statement_padding_field] using h
+  simpa [ParseTreeProcessor.visit_statement_padding_field, py_helper] using h
 
 /-- **A failed lazy commit carries the recorded line of the attribute, not the line where it surfaces.**  If committing the
     queued attribute raises an `_error.Error` without a line, `_flush_comment` -- on whatever later line it runs: the first
@@ -97,7 +97,7 @@ theorem C17.gen_commit_error_line {P T V A L H : Type} (en : Env P T V A H) (g :
 theorem C17.gen_print_line {P T V A L H : Type} (en : Env P T V A H) (b : BuilderS P T V A L H) (k : Nat) (v : Option V) :
     (DataTypeBuilder.on_directive en k "print".toList v).run b =
       (.ok (), { b with print_output_handler := en.call_print_output_handler b.print_output_handler k (strOfOpt en.str v) }) := by
-  simp [DataTypeBuilder.on_directive, DataTypeBuilder.on_print_directive]
+  simp [DataTypeBuilder.on_directive, DataTypeBuilder.on_print_directive, py_helper]
 
 /-! ### (2) the C17 theorems over `read` with the generated `parse` -/
 
